@@ -606,6 +606,27 @@ def run_property(modname, tier, seed, nshards=None, collect=False):
             if now - t_start > limit:
                 reason = "shards did not finish within %.0f s" % limit
                 break
+            # a shard whose process has vanished while it was working on a case: the interpreter died inside the code
+            # under test (abort / segmentation fault).  The case is replayed in a fresh interpreter; if that one dies by
+            # a signal as well the crash is a reproducible property of the input and is reported as a violation,
+            # otherwise the run is inconclusive.
+            dead = _dead_shards(nshards)
+            if dead:
+                time.sleep(1.0)
+                crash = _confirm_crash(prop, dead[0])
+                pool.terminate()
+                _kill_children()
+                if crash:
+                    path, sig, sub = crash
+                    m0 = {"evaluations": 0, "classes": collections.Counter(), "counters": collections.Counter(),
+                          "nontrivial": set(), "samples": [], "shards": nshards, "corpus_replayed": n_corpus}
+                    write_evidence(mod, tier, seed, m0, time.time() - t0, 1)
+                    print("VIOLATION property=%s replay=%s" % (prop, path))
+                    print("  sub=%s kind=interpreter_crash/signal_%d\n  the interpreter died (signal %d) inside the code under test "
+                          "while running this case, and dies again when the case is replayed in a fresh interpreter" % (sub, sig, sig))
+                    return 1
+                reason = "shard %d died and the case it was running does not crash a fresh interpreter" % dead[0]
+                break
             # a shard that has started a case more than `stall` seconds ago and shown no sign of life since is
             # stuck inside the code under test (e.g. a C kernel spinning or deadlocked after heap corruption)
             stuck = [i for i in range(nshards) if _HEART["arr"][i] > 0 and now - _HEART["arr"][i] > stall]
@@ -749,6 +770,52 @@ def _combine_pycov(d, prop):
 
 def _pad(m):
     return m
+
+
+def _dead_shards(nshards):
+    out = []
+    d = _HEART.get("dir")
+    for i in range(nshards):
+        if not _HEART["arr"][i] > 0:
+            continue                      # finished (-1) or not started
+        try:
+            pid = int(open(os.path.join(d, "shard%d.pid" % i)).read())
+        except Exception:
+            continue
+        alive = os.path.exists("/proc/%d" % pid)
+        if alive:
+            try:
+                with open("/proc/%d/stat" % pid) as f:
+                    alive = f.read().rsplit(")", 1)[1].split()[0] != "Z"
+            except Exception:
+                alive = False
+        if not alive:
+            out.append(i)
+    return out
+
+
+def _confirm_crash(prop, shard):
+    """Replay the case the dead shard was running in a fresh interpreter.  -> (replay path, signal, sub) or None."""
+    import subprocess
+    try:
+        cur = json.loads(open(os.path.join(_HEART["dir"], "shard%d.cur" % shard)).read())
+        body = {"property": prop, "sub": cur.get("sub"), "kind": "interpreter_crash",
+                "detail": "the interpreter died inside the code under test while running this case", "spec": cur["spec"]}
+        d = os.path.join(ROOT, "replays", prop)
+        os.makedirs(d, exist_ok=True)
+        h = hashlib.blake2b(json.dumps(body, sort_keys=True).encode(), digest_size=6).hexdigest()
+        path = os.path.join(d, "%s-crash-%s.json" % (cur.get("sub"), h))
+        with open(path, "w") as f:
+            json.dump(body, f, indent=1, sort_keys=True)
+        r = subprocess.run([sys.executable, "-W", "ignore", "-m", "vf.main", prop, "--replay", path], cwd=ROOT,
+                           capture_output=True, text=True, timeout=900)
+        if r.returncode < 0:
+            return path, -r.returncode, cur.get("sub")
+        if r.returncode in (134, 139):      # shell-style codes, should a wrapper be in between
+            return path, r.returncode - 128, cur.get("sub")
+    except Exception:
+        return None
+    return None
 
 
 def _kill_children():
